@@ -14,7 +14,8 @@ Record envd := mk_envd {
   d_key : list (name * lookup);
   d_dname : list (name * N * lookup);
   d_orc : list (N * N * name * name * ores);
-  d_wild : list (N * name * name * wres) }.
+  d_wild : list (N * list (N * N) * name * name * wres) }.
+    (* message id, (type, rdata id) of the NSEC/NSEC3 records the verifier was run on, next closer, signer, verdict *)
 
 Fixpoint name_index (names : list name) (n : name) (i : N) : N :=
   match names with
@@ -42,11 +43,18 @@ Fixpoint find_orc_tab (t : list (N * N * name * name * ores)) (k id : N) (subj z
   | (k', id', s', z', o) :: r =>
       if (k =? k') && (id =? id') && name_eqb subj s' && name_eqb z z' then o else find_orc_tab r k id subj z
   end.
-Fixpoint find_wild_tab (t : list (N * name * name * wres)) (id : N) (nc z : name) : wres :=
+Fixpoint pairs_eqb (a b : list (N * N)) : bool :=
+  match a, b with
+  | [], [] => true
+  | (x, y) :: a', (x', y') :: b' => (x =? x') && (y =? y') && pairs_eqb a' b'
+  | _, _ => false
+  end.
+Definition ids (l : list rr) : list (N * N) := map (fun r => (r_type r, r_id r)) l.
+Fixpoint find_wild_tab (t : list (N * list (N * N) * name * name * wres)) (id : N) (view : list rr) (nc z : name) : wres :=
   match t with
   | [] => WErr (EOracle 999)
-  | (id', nc', z', o) :: r =>
-      if (id =? id') && name_eqb nc nc' && name_eqb z z' then o else find_wild_tab r id nc z
+  | (id', v', nc', z', o) :: r =>
+      if (id =? id') && pairs_eqb (ids view) v' && name_eqb nc nc' && name_eqb z z' then o else find_wild_tab r id view nc z
   end.
 Definition env_of (d : envd) : env :=
   mk_env (fun n => name_index (d_names d) n 0) (d_now d) (d_dnssec d) (d_anchors d)
@@ -109,19 +117,12 @@ Definition opt_err_eqb (a b : option err) : bool :=
   | Some x, Some y => err_eqb x y
   | _, _ => false
   end.
-Fixpoint pairs_eqb (a b : list (N * N)) : bool :=
-  match a, b with
-  | [], [] => true
-  | (x, y) :: a', (x', y') :: b' => (x =? x') && (y =? y') && pairs_eqb a' b'
-  | _, _ => false
-  end.
 Fixpoint names_eqb (a b : list name) : bool :=
   match a, b with
   | [], [] => true
   | x :: a', y :: b' => name_eqb x y && names_eqb a' b'
   | _, _ => false
   end.
-Definition ids (l : list rr) : list (N * N) := map (fun r => (r_type r, r_id r)) l.
 Definition obs_eqb (m : outcome) (o : obs) : bool :=
   match m, o with
   | Fail e, OFail e' => err_eqb e e'
@@ -206,6 +207,30 @@ Definition spec_rrsig (now : Z) (signer : name) (keys : list key) (ans ns : list
 
 Definition SERVFAIL : N := 2.
 
+(* RFC 4035 §5.3.4 on the input, without the model's control flow: AD over an answer that holds wildcard-expanded
+   signatures needs ONE ancestor zone of qname, named as signer in the answer, such that every expansion's next closer
+   name is denied — authenticated, no Opt-Out span — by NSEC/NSEC3 records of the authority section that lie INSIDE that
+   zone (owner and, for NSEC, next name).  Records owned elsewhere were not validated by anybody and prove nothing. *)
+Definition wild_expanded (r : rr) : option (name * sigd) :=
+  match sig_of r with
+  | Some s => if (length (r_owner r) <=? N.to_nat (s_labels s))%nat then None
+              else Some (lastn (N.to_nat (s_labels s) + 1) (r_owner r), s)
+  | None => None
+  end.
+Definition spec_wild_denied (d : envd) (qname : name) (resp : msg) : bool :=
+  match filter (fun r => match wild_expanded r with Some _ => true | None => false end) (m_ans resp) with
+  | [] => true
+  | exps =>
+      existsb (fun zr => match sig_of zr with
+        | Some zs => let z := s_signer zs in
+            in_zone qname z &&
+            forallb (fun r => match wild_expanded r with
+              | Some (nc, _) => match find_wild_tab (d_wild d) (m_id resp) (denial_records (filter_zone (m_ns resp) z)) nc z with
+                                | WRes true true => true | _ => false end
+              | None => true end) exps
+        | None => false end) (m_ans resp)
+  end.
+
 Definition spec_case (c : case) : bool :=
   match c with
   | CaseDS keys dsset unsup e =>
@@ -256,7 +281,8 @@ Definition spec_case (c : case) : bool :=
       | OAccept ad _ _ _ =>
           (* AD only when not CD, an anchor exists, and some RRSIG in the answer names an ancestor signer *)
           if ad then negb cd && match d_anchors d with [] => false | _ => true end &&
-                     existsb (fun r => match sig_of r with Some s => in_zone qname (s_signer s) | None => false end) (m_ans resp)
+                     existsb (fun r => match sig_of r with Some s => in_zone qname (s_signer s) | None => false end) (m_ans resp) &&
+                     spec_wild_denied d qname (bailiwick zone resp)
           else true
       | OFail e => true
       end && (if negb cd && d_dnssec d && match d_anchors d with [] => true | _ => false end
